@@ -48,3 +48,46 @@ package ec
 //@   loop 2 decreases nodes - i + totalParts
 //@   ensures [every_node_once] !stopped(0) ==> (forall j int :: 0 <= j && j < nodes ==> seen(j))
 //@   ensures [part_starts_at_its_own_node] partIdx < nodes ==> yielded(0) > 0 && firstIdx(0) == partIdx
+
+// ---- C21, relative to the codec (klauspost/reedsolomon is external and trusted to restore
+// the parts it is asked for from any sufficient subset): the node asks the codec for exactly
+// the right parts, and cuts the payload out of exactly the data parts.
+
+//@ callrule c21_decode_asks_for_all_data_parts in Decode
+//@   property C21
+//@   callee (reedsolomon.Encoder).ReconstructSome
+//@   pureeffect
+//@   requires [required_is_exactly_the_data_parts] len(a1) == int(rule.DataPartNum) + int(rule.ParityPartNum) && (forall k int :: 0 <= k && k < len(a1) ==> a1[k] == (k < int(rule.DataPartNum)))
+//@ func Decode
+//@   property C21
+//@   valid int(rule.DataPartNum) + int(rule.ParityPartNum) <= 255
+//@   loop 1 invariant int(rangeiter) < int(rule.DataPartNum) && len(required) == int(rule.DataPartNum) + int(rule.ParityPartNum) && (forall k int :: 0 <= k && k < len(required) ==> required[k] == (k < int(rangeiter)))
+
+//@ callrule c21_range_decode_asks_for_the_range in DecodeRange
+//@   property C21
+//@   callee (reedsolomon.Encoder).ReconstructSome
+//@   pureeffect
+//@   requires [required_is_exactly_the_requested_range] len(a1) == int(rule.DataPartNum) + int(rule.ParityPartNum) && (forall k int :: 0 <= k && k < len(a1) ==> a1[k] == (fromIdx <= k && k <= toIdx))
+//@ func DecodeRange
+//@   property C21
+//@   sweep
+//@   valid int(rule.DataPartNum) + int(rule.ParityPartNum) <= 255 && 0 <= fromIdx && toIdx < int(rule.DataPartNum) + int(rule.ParityPartNum)
+//@   loop 1 invariant fromIdx <= i && (i <= toIdx + 1 || i == fromIdx) && len(required) == int(rule.DataPartNum) + int(rule.ParityPartNum) && (forall k int :: 0 <= k && k < len(required) ==> required[k] == (fromIdx <= k && k < i))
+
+//@ callrule c21_coder_matches_rule in newCoderForRule
+//@   property C21
+//@   callee reedsolomon.New
+//@   pureeffect
+//@   requires [coder_built_for_the_rules_part_numbers] a0 == int(rule.DataPartNum) && a1 == int(rule.ParityPartNum)
+
+// Encode announces one hash per part (also for the empty payload, where every part is nil).
+//@ callrule c21_encode_collaborators in Encode
+//@   property C21
+//@   callee (reedsolomon.Encoder).Split, (reedsolomon.Encoder).Encode, sha256.Sum256, hex.EncodeToString, ec.newCoderForRule
+//@   pureeffect
+//@ func Encode
+//@   property C21
+//@   valid int(rule.DataPartNum) + int(rule.ParityPartNum) <= 255
+//@   loop 1 invariant len(hashes) == int(rangeiter) && int(rangeiter) < int(partsNumber)
+//@   loop 2 invariant len(sums) == len(parts)
+//@   ensures [one_hash_per_part] err == nil ==> len(res0) == len(res1)
